@@ -45,6 +45,9 @@ class World:
         ss.check_received = wrapped
         self.with_entry = with_entry
         self.started = False
+        # somebody watches: OfferService / StopOfferService entries of the messages reach the real discovery part
+        import someip.sd as _sd
+        self.prot.discovery.watch_all_services(_sd.ClientServiceListener())
 
     def _spy(self, comp, addr):
         self.calls.append((comp, addr))
@@ -92,6 +95,9 @@ class World:
         entries = []
         if self.with_entry:
             entries = [("find", 0x4242, 0xFFFF, 0xFF, 3, 0xFFFFFFFF, (), ())]
+        ent = letter[6] if len(letter) > 6 else 0
+        if ent:
+            entries = entries + [("offer", 0x4343, 1, 1, 3 if ent == 1 else 0, 0, (), ())]  # 1: offer, 2: stop-offer
         data = refcodec.sd_message(sid, entries, reboot=bool(flag), unicast=bool(uflag))
         prefix = letter[5] if len(letter) > 5 else 0
         if prefix == 1:
@@ -245,6 +251,8 @@ def check(ctx):
         ("one-sender-unicast-flag-set-or-clear-closure", [l + (u,) for l in letters("P", (0, 1)) for u in (0, 1)], 10 ** 6, True),
         # the message shares its datagram with an undecodable SD message / a foreign message in front of it or behind it
         ("one-sender-datagram-neighbours-closure", [l + (1, p) for l in letters("P", (0, 1)) for p in (0, 1, 2, 3, 4)], 10 ** 6, True),
+        # the messages carry an offer / a stop-offer of a watched service (what they say must not touch the comparison)
+        ("one-sender-offers-and-stopoffers-closure", [l + (1, 0, e) for l in letters("P", (0, 1)) for e in (0, 1, 2)], 10 ** 6, False),
         # the receiving endpoint is started late, or stopped and started again, between messages
         ("one-sender-endpoint-lifecycle-closure", letters("P", (0, 1)) + [("@", 0, 0, 0)], 10 ** 6, False),
     ]
